@@ -21,6 +21,11 @@ Links      : the histories contain cg_link_write to nodes of the same file and o
              the data behind it; model: Mirror.link_new / op OLink (= cg_link_write + cg_close + cg_open),
              C04_link_identity_survives; C04_compress_keeps_links evaluates the regenerated guard of recurse_nodes (cgns_io.c).
              Node-context arrays are also rewritten in place (cg_array_general_write = OUpdate).
+Data types : DataArray_t under parents that accept any array carry one of the seven mid-level types and a 1-D / 2-D shape chosen by
+             the NAME; Blob_t nodes created through cgio carry all ten database types; every byte is verified on every view;
+             phase (t) sends all of them through the rewrite at compress-on-close; C04_copy_data_sizes_consistent.
+Hidden state: `zcmode keep` -- the harness selects a ZoneGridConnectivity_t container only when another one is wanted; a third
+             of the random histories take views after every third op only.
 Attributes : every entity whose writer re-creates it in a re-used slot (single children, units, multi-sibling positions; 118
              targets) is written, given every attribute the API accepts, overwritten, and compared -- session and fresh open --
              with the same entity created for the first time in a second file (harness `attach` / `full`); statically,
@@ -46,6 +51,9 @@ Findings   : what the tree does by design or cannot repair cheaply goes through 
                fresh-view-differs:<label>:<fields>        same phase: a freshly created entity reads differently in the session
                                                           and after a fresh open
                link-invisible-until-reopen                cg_link_write updates the file only (documented in its source)
+               active-zconn-follows-index-after-delete    the current ZoneGridConnectivity_t is an index that a deletion shifts
+               attribute-rewrite-refused:<label>:<what>   a single-valued attribute written a second time is refused after the
+                                                          session value was changed
                array-general-write-stale-cache            cg_array_general_write on an array loaded at cg_open leaves the loaded
                                                           copy alone: cg_array_read answers the old values
              Whatever Mirror.shadowed / parents_without_block / unsound_kinds / bad_nrows flag on the regenerated tables
@@ -601,6 +609,7 @@ def evaluate(ops, lines, exp, out, outcome):
     if len(out) != len(lines):
         return [{"class": "output-length", "expected": len(lines), "got": len(out), "tail": out[-3:]}]
     snap_prev, snap_cur = {}, {}
+    snap_prev_k = -1
     pre = {}
     cur_tag = None
     for i, (e, got) in enumerate(zip(exp, out)):
@@ -666,11 +675,12 @@ def evaluate(ops, lines, exp, out, outcome):
         if tag != cur_tag:
             if cur_tag is not None and cur_tag[0] in ("after", "pre"):
                 snap_prev = snap_cur
+                snap_prev_k = cur_tag[1]
             snap_cur = {} if tag[0] != "post" else snap_cur
             cur_tag = tag
         if tag[0] in ("after", "pre"):
             snap_cur[g] = v
-            if tag[0] == "after" and g in snap_prev:
+            if tag[0] == "after" and g in snap_prev and tag[1] - snap_prev_k <= 1:      # (sparse views: several ops lie between)
                 op = ops[tag[1]]
                 tpath, tname = (op[1], op[4]) if op[0] in ("w", "u", "ln", "lnraw") else (op[1], op[3]) if op[0] in ("d", "raw") else (None, None)
                 sub = join(tpath, tname) if tpath else None
